@@ -333,6 +333,13 @@ def check(prop, tier, replay=None):
     if res["violated"] or not res["ok"]:
         raise MachineryError(f"leg M: {res['violated']} / {res['error']}\n" + tlc.counterexample(res, 40))
     V.cov["exhaustive"] = True
+    if prop == "C17":
+        # the division lengths for ALL region lengths and divisors (symbolic integers, a few seconds)
+        detail, done = tlc.apalache("RegionInt", [("DivLemma", True), ("AllEqual", False)], wd, timeout=900)
+        V.leg("unbounded", tool="apalache-mc 0.58", module="RegionInt", obligations=2, discharged=done, detail=detail,
+              checker_cmd="apalache-mc check --inv=DivLemma|AllEqual --length=0 RegionInt.tla")
+        V.cov["obligations"] = 2
+        V.cov["discharged"] = done
     if prop == "C16" and (tier == "thorough" or os.environ.get("VERIF_APALACHE")):
         # the slicing agreement for ALL lengths, sample sizes and bounds (symbolic integers; about two minutes of Z3)
         detail, done = tlc.apalache("RegionInt", [("SliceAgree", True), ("WholeRegion", False)], wd, timeout=2400)
